@@ -26,15 +26,17 @@ impl<U: TimeUnitTrait> DateTime<U> {
     pub fn into_unit<T: TimeUnitTrait>(self) -> DateTime<T> {
         if U::unit() == T::unit() {
             unsafe { std::mem::transmute::<DateTime<U>, DateTime<T>>(self) }
+        } else if self.is_nat() {
+            DateTime::nat()
         } else {
             use TimeUnit::*;
             match (U::unit(), T::unit()) {
-                (Nanosecond, Microsecond) => DateTime::new(self.0 / NANOS_PER_MICRO),
-                (Nanosecond, Millisecond) => DateTime::new(self.0 / NANOS_PER_MILLI),
-                (Nanosecond, Second) => DateTime::new(self.0 / NANOS_PER_SEC),
-                (Microsecond, Millisecond) => DateTime::new(self.0 / MICROS_PER_MILLI),
-                (Microsecond, Second) => DateTime::new(self.0 / MICROS_PER_SEC),
-                (Millisecond, Second) => DateTime::new(self.0 / MILLIS_PER_SEC),
+                (Nanosecond, Microsecond) => DateTime::new(self.0.div_euclid(NANOS_PER_MICRO)),
+                (Nanosecond, Millisecond) => DateTime::new(self.0.div_euclid(NANOS_PER_MILLI)),
+                (Nanosecond, Second) => DateTime::new(self.0.div_euclid(NANOS_PER_SEC)),
+                (Microsecond, Millisecond) => DateTime::new(self.0.div_euclid(MICROS_PER_MILLI)),
+                (Microsecond, Second) => DateTime::new(self.0.div_euclid(MICROS_PER_SEC)),
+                (Millisecond, Second) => DateTime::new(self.0.div_euclid(MILLIS_PER_SEC)),
                 (Microsecond, Nanosecond) => DateTime::new(self.0 * NANOS_PER_MICRO),
                 (Millisecond, Nanosecond) => DateTime::new(self.0 * NANOS_PER_MILLI),
                 (Second, Nanosecond) => DateTime::new(self.0 * NANOS_PER_SEC),
